@@ -134,16 +134,98 @@ func c09scenario(steps, bound int, gaps bool, yieldOnRelease ...bool) *explore.S
 	return sc
 }
 
+// c09concurrent: two threads call Set at the same time (each one value of the menu), then - everything settled -
+// a last Set(+10 ms) is made: whichever of the two concurrent calls took effect last, the deadline reported
+// is one of the two, nothing is signalled before its time, and the last deadline fires.
+func c09concurrent(bound int) *explore.Scenario {
+	sc := &explore.Scenario{Name: "deadline: two concurrent Sets, then a last one", Bound: bound}
+	sc.Cfg.Horizon = 10 * time.Second
+	sc.Cfg.YieldOnRelease = true
+	menu := []string{"zero", "+5ms", "+10ms", "past"}
+	sc.Make = func() (func(), func(*zzvsched.Exec) (string, *explore.Violation)) {
+		var viol *explore.Violation
+		var script []string
+		finished, finalSignalled := false, false
+		fail := func(sig, format string, a ...any) {
+			if viol == nil {
+				viol = &explore.Violation{Sig: sig, Msg: fmt.Sprintf("concurrent Sets %v: ", script) + fmt.Sprintf(format, a...)}
+			}
+		}
+		body := func() {
+			d := deadline.New()
+			if zzvsched.Choose(2) == 1 {
+				// an earlier deadline: the runtime timer exists already and is armed when the two calls race
+				script = append(script, "first:+20ms")
+				d.Set(zzvsched.Base.Add(20 * time.Millisecond))
+			}
+			var vals [2]time.Time
+			for i := 0; i < 2; i++ {
+				k := zzvsched.Choose(len(menu))
+				script = append(script, menu[k])
+				switch menu[k] {
+				case "+5ms":
+					vals[i] = zzvsched.Base.Add(5 * time.Millisecond)
+				case "+10ms":
+					vals[i] = zzvsched.Base.Add(10 * time.Millisecond)
+				case "past":
+					vals[i] = zzvsched.Base.Add(-time.Millisecond)
+				}
+			}
+			for i := 0; i < 2; i++ {
+				i := i
+				zzvsched.GoNamed(fmt.Sprintf("setter%d", i), func() { d.Set(vals[i]) })
+			}
+			zzvsched.WaitIdle()
+			dl, ok := d.Deadline()
+			if !(dl.Equal(vals[0]) && ok == !vals[0].IsZero()) && !(dl.Equal(vals[1]) && ok == !vals[1].IsZero()) {
+				fail("C09 deadline-value", "after both calls returned Deadline() = (%v,%v), neither of the two values set", dl, ok)
+			}
+			closed := zzvsched.Select(true, zzvsched.NewRecv(d.Done())) == 0
+			err := d.Err()
+			now := zzvsched.Base.Add(zzvsched.Elapsed()) // read AFTER the observations: a stalled thread may have let time pass
+			if (closed || err != nil) && (dl.IsZero() || dl.After(now)) {
+				fail("C09 signalled-early", "signalled (Done closed=%v, Err=%v) no later than %v although the deadline in force is %v", closed, err, now.Sub(zzvsched.Base), dl)
+			}
+			last := zzvsched.Now().Add(10 * time.Millisecond)
+			d.Set(last)
+			zzvsched.SleepIdle(100 * time.Millisecond)
+			finalSignalled = zzvsched.Select(true, zzvsched.NewRecv(d.Done())) == 0 && d.Err() != nil
+			if !finalSignalled {
+				fail("C09 not-signalled", "a last Set(+10 ms) after the two concurrent calls was never signalled (100 ms later: Err=%v)", d.Err())
+			}
+			finished = true
+		}
+		check := func(ex *zzvsched.Exec) (string, *explore.Violation) {
+			out := fmt.Sprintf("%v signalled=%v", script, finalSignalled)
+			if len(ex.Panics) > 0 {
+				return out, &explore.Violation{Msg: fmt.Sprintf("concurrent Sets %v: panic: %s\n%s", script, ex.Panics[0].Value, ex.Panics[0].Stack), Sig: "C09 panic"}
+			}
+			if viol != nil {
+				return out, viol
+			}
+			if ex.HorizonHit {
+				return out + " HORIZON", nil
+			}
+			if !finished {
+				return out, &explore.Violation{Msg: fmt.Sprintf("concurrent Sets %v: main thread blocked: %v", script, ex.Parked), Sig: "C09 blocked"}
+			}
+			return out, nil
+		}
+		return body, check
+	}
+	return sc
+}
+
 func init() {
 	register(&Check{ID: "C09", YieldOnRelease: true,
 		Scenarios: func(tier string) []*explore.Scenario {
 			if tier == "quick" {
-				return []*explore.Scenario{c09scenario(3, 2, false), c09scenario(2, 2, true), c09scenario(2, 2, true, true)}
+				return []*explore.Scenario{c09scenario(3, 2, false), c09scenario(2, 2, true), c09scenario(2, 2, true, true), c09concurrent(2)}
 			}
 			// bound -1 = unbounded: the happens-before state cache closes the whole interleaving space
-			return []*explore.Scenario{c09scenario(4, 2, false), c09scenario(3, -1, false), c09scenario(3, 2, true), c09scenario(2, -1, true), c09scenario(2, 3, true, true), c09scenario(3, 2, false, true)}
+			return []*explore.Scenario{c09scenario(4, 2, false), c09scenario(3, -1, false), c09scenario(3, 2, true), c09scenario(2, -1, true), c09scenario(2, 3, true, true), c09scenario(3, 2, false, true), c09concurrent(3)}
 		},
-		Rule: "all scripts of Set(zero|past|+5ms|+10ms|+20ms|+400 years|+3ns) of the stated length (optionally separated by 0/7/12 ms sleeps) x every placement, within the deviation bound, of timer expiries and of the separately scheduled timer callbacks (so up to 3 dispatched-but-not-run callbacks are outstanding); Done/Err/Deadline observed after every Set, before the next one, 1 ms after the last one and at quiescence 100 ms later; one family additionally has a scheduling point after every unlock",
+		Rule: "all scripts of Set(zero|past|+5ms|+10ms|+20ms|+400 years|+3ns) of the stated length (optionally separated by 0/7/12 ms sleeps) x every placement, within the deviation bound, of timer expiries and of the separately scheduled timer callbacks (so up to 3 dispatched-but-not-run callbacks are outstanding); Done/Err/Deadline observed after every Set, before the next one, 1 ms after the last one and at quiescence 100 ms later; one family additionally has a scheduling point after every unlock; plus two threads calling Set at the same time, followed by a last Set that must fire",
 		Assumptions: []string{"the runtime timer is modelled: expiry dispatches the callback as a new thread whose first lock acquisition is a scheduling point; Stop reports whether the expiry had not been dispatched yet",
 			"signalled-ness is judged strictly (never before the latest Set's time); being signalled is required only at quiescence"}})
 }
